@@ -105,6 +105,9 @@ type CapLog struct {
 	S    *simrt.Sim
 	Recs []LogRec
 	Keep bool
+	// Slow makes the logger a scheduling point (and sometimes a short sleep on
+	// the fake clock): the library logs while holding its locks
+	Slow bool
 	// Scan is called with every formatted record (C20).
 	Scan func(level, text string)
 }
@@ -119,6 +122,14 @@ func (c *CapLog) add(level, f string, a []interface{}) {
 	}
 	if c.S.Tracing() && level != "debug" {
 		c.S.Logf("log[%s] %s", level, txt)
+	}
+	if c.Slow && c.S.Self() != nil {
+		switch c.S.Choose(12) {
+		case 0:
+			simrt.Sleep(time.Millisecond)
+		case 1, 2:
+			simrt.Sleep(0)
+		}
 	}
 }
 
